@@ -9,7 +9,8 @@ LEVEL = "model_checking"
 RULE = ("exhaustive over ordered list pairs and chains: adjust_precomputed(precompute(F),F,T) == precompute(T) for ALL ordered pairs (F,T) of the attribute-list "
         "alphabet (per slot absent/v1/v2/hidden, l=3; plus lists with the special ids 0, r, r+v1, 2^256-1) and for ALL chains F->M->T (l=2 quick, l=3 thorough); "
         "adjust_nondelegable(NDQ(parent,F),parent,F,T) == NDQ(parent,T) component for component (a0, a1, bsig, l, every idx and hexp) for EVERY reachable parent "
-        "state (replayed from its witness history) and EVERY permitted (F,T), and for chains of two adjustments; encrypt_precomputed / verify_precomputed / "
+        "state (replayed from its witness history) and EVERY permitted (F,T), and for chains of two adjustments carried out in place on ONE key object whose "
+        "spare slot entries (beyond the current l) hold canary bytes, zeros or a foreign key's valid-looking slots; encrypt_precomputed / verify_precomputed / "
         "sign_precomputed are interchanged with their direct forms on every state. state = (parent state, F, T); non-trivial = F != T")
 ASSUMPTIONS = ["hidden entries carry id 0 (as the Go binding builds them)", "group elements are compared with the library's projective equality (decided by C05)"]
 
@@ -54,17 +55,25 @@ def eval_case(case):
         chain = case["chain"]
         if any(not wk.permitted(state[1], c, W.vals) for c in chain):
             return []
-        cur = W.apply(key, ["ndqualify", chain[0]])
+        # the Go binding adjusts ONE key object again and again: its slot array is (re)allocated to parent.l entries once and every
+        # later adjustment works in place, so entries beyond the current l are whatever an earlier state (or malloc) left there.
+        # The result must not depend on that content: it is enumerated (canary bytes, zeros, a foreign key's valid-looking slots).
+        child = W.apply(key, ["ndqualify", chain[0]])
+        cur = W.newkey(key.l)
+        fs = W.N.sz["wk_freeslot"]
+        garbage = case.get("garbage", "canary")
+        if garbage == "zero":
+            ffi.ctypes.memset(cur.b, 0, fs * cur.slots)
+        elif garbage == "foreign" and key.l > 0:
+            other = W.apply(key, ["resample", True, state[1]], ffi.CounterRng("c14-foreign"))     # same slots, other randomness
+            ffi.ctypes.memmove(cur.b, other.b.raw[:fs * key.l], fs * key.l)
+        for fld, size in (("a0", W.N.sz["g1"]), ("a1", W.N.sz["g2"]), ("l", 4), ("signatures", 1), ("bsig", W.N.sz["g1"])):
+            o = W.N.off["wk_secretkey." + fld]
+            ffi.ctypes.memmove(ffi.ctypes.byref(cur.buf, o), child.buf.raw[o:o + size], size)
+        n = min(max(child.l, 0), cur.slots)
+        ffi.ctypes.memmove(cur.b, child.b.raw[:fs * n], fs * n)
         for a, b in zip(chain, chain[1:]):
-            out = W.newkey(key.l)
-            for fld, size in (("a0", W.N.sz["g1"]), ("a1", W.N.sz["g2"]), ("l", 4), ("signatures", 1), ("bsig", W.N.sz["g1"])):
-                o = W.N.off["wk_secretkey." + fld]
-                ffi.ctypes.memmove(ffi.ctypes.byref(out.buf, o), cur.buf.raw[o:o + size], size)
-            fs = W.N.sz["wk_freeslot"]
-            n = min(max(cur.l, 0), out.slots)
-            ffi.ctypes.memmove(out.b, cur.b.raw[:fs * n], fs * n)
-            L.call("embedded_pairing_wkdibe_adjust_nondelegable", out.buf, key.buf, W.al(a), W.al(b))
-            cur = out
+            L.call("embedded_pairing_wkdibe_adjust_nondelegable", cur.buf, key.buf, W.al(a), W.al(b))
         direct = W.apply(key, ["ndqualify", chain[-1]])
         if cur.overrun():
             msgs.append("adjust_nondelegable wrote beyond parent.l slots")
@@ -163,12 +172,16 @@ def run_shard(ctx, shard):
                 pairs = list(itertools.product(perm, perm))
             for F, T in pairs:
                 emit(dict(base, sub="nd", chain=[F, T]), F != T, "nd-pair:" + klass([F, T]) + ("+omit-all" if T["omit"] or F["omit"] else ""))
+                if not sig:
+                    for g in ("zero", "foreign"):
+                        emit(dict(base, sub="nd", chain=[F, T], garbage=g), F != T, "nd-pair-stale-slots:" + g)
                 if ctx.out_of_time():
                     return
             # chains of two adjustments
             mids = perm[:: max(1, len(perm) // 4)]
             for F, M, T in itertools.product(perm[:: max(1, len(perm) // 6)], mids, perm[:: max(1, len(perm) // 6)]):
                 emit(dict(base, sub="nd", chain=[F, M, T]), True, "nd-chain")
+                emit(dict(base, sub="nd", chain=[F, M, T], garbage="foreign"), True, "nd-chain-stale-slots")
             emit(dict(base, sub="enc"), True, "encrypt_precomputed")
 
 
